@@ -1,4 +1,6 @@
-//! C13: TCP options (TcpOptions, TcpOptionsIterator, TcpHeader::set_options*).
+//! C13: TCP options (TcpOptions, TcpOptionsIterator) and their header level paths
+//! (TcpHeader::set_options / set_options_raw / options_iterator / to_bytes / from_slice / read,
+//! TcpHeaderSlice / TcpSlice ::from_slice / options / options_iterator).
 use etherparse::*;
 use vh::*;
 
@@ -184,6 +186,190 @@ fn new_header() -> TcpHeader {
     TcpHeader::new(1234, 80, 0x11223344, 4321)
 }
 
+// ---------------------------------------------------------------- header level
+fn same_or(reference: &str, s: String) -> String {
+    if s == reference {
+        "=".to_string()
+    } else {
+        s
+    }
+}
+
+fn s_slice_err(e: &err::tcp::HeaderSliceError) -> String {
+    use err::tcp::{HeaderError::*, HeaderSliceError::*};
+    match e {
+        Len(_) => "ERR:len".to_string(),
+        Content(DataOffsetTooSmall { data_offset }) => format!("ERR:doff:{}", data_offset),
+    }
+}
+
+fn s_read_err(e: &err::tcp::HeaderReadError) -> String {
+    use err::tcp::{HeaderError::*, HeaderReadError::*};
+    match e {
+        Io(_) => "ERR:io".to_string(),
+        Content(DataOffsetTooSmall { data_offset }) => format!("ERR:doff:{}", data_offset),
+    }
+}
+
+/// `buf` (header + whatever follows) seen through TcpHeaderSlice, TcpSlice,
+/// TcpHeader::from_slice and TcpHeader::read.  `ref_area` / `ref_it`: the option
+/// bytes / iteration already printed on the line ("" = nothing printed yet);
+/// equal strings are abbreviated to "=".
+fn views_line(buf: &[u8], ref_area: &str, ref_it: &str, hdr: Option<&TcpHeader>) -> String {
+    let mut out: Vec<String> = Vec::new();
+    let mut area_ref = ref_area.to_string();
+    let mut it_ref = ref_it.to_string();
+    // TcpHeaderSlice
+    match TcpHeaderSlice::from_slice(buf) {
+        Err(e) => out.push(format!("hs={}", s_slice_err(&e))),
+        Ok(s) => {
+            let o = s.options();
+            let area = hex(o);
+            let it = iter_line(o, s.options_iterator());
+            out.push(format!(
+                "hs={} hsdo={} hsopt={}:{} hsit[ {} ]",
+                off(buf, s.slice()),
+                s.data_offset(),
+                off(buf, o),
+                same_or(&area_ref, area.clone()),
+                same_or(&it_ref, it.clone())
+            ));
+            if area_ref.is_empty() {
+                area_ref = area;
+            }
+            if it_ref.is_empty() {
+                it_ref = it;
+            }
+        }
+    }
+    // TcpSlice
+    match TcpSlice::from_slice(buf) {
+        Err(e) => out.push(format!("ts={}", s_slice_err(&e))),
+        Ok(s) => {
+            let o = s.options();
+            out.push(format!(
+                "ts={} tsdo={} tshs={} tspl={} tsopt={}:{} tsit[ {} ]",
+                s.header_len(),
+                s.data_offset(),
+                off(buf, s.header_slice()),
+                off(buf, s.payload()),
+                off(buf, o),
+                same_or(&area_ref, hex(o)),
+                same_or(&it_ref, iter_line(o, s.options_iterator()))
+            ));
+        }
+    }
+    // TcpHeader::from_slice
+    let mut decoded: Option<TcpHeader> = None;
+    match TcpHeader::from_slice(buf) {
+        Err(e) => out.push(format!("fs={}", s_slice_err(&e))),
+        Ok((h2, rest)) => {
+            let o = h2.options.as_slice();
+            out.push(format!(
+                "fs={} fshl={} fsdo={} fsopt={} fsit[ {} ]",
+                off(buf, rest),
+                h2.header_len(),
+                h2.data_offset(),
+                same_or(&area_ref, hex(o)),
+                same_or(&it_ref, iter_line(o, h2.options_iterator()))
+            ));
+            if let Some(h) = hdr {
+                out.push(format!("fseq={}", if *h == h2 { "eq" } else { "ne" }));
+            }
+            decoded = Some(h2);
+        }
+    }
+    // TcpHeader::read
+    let mut cur = std::io::Cursor::new(buf);
+    match TcpHeader::read(&mut cur) {
+        Err(e) => out.push(format!("rd={}", s_read_err(&e))),
+        Ok(h3) => {
+            let o = h3.options.as_slice();
+            out.push(format!(
+                "rd={} rdopt={} rdeq={}",
+                cur.position(),
+                same_or(&area_ref, hex(o)),
+                match &decoded {
+                    Some(h2) => {
+                        if *h2 == h3 {
+                            "eq"
+                        } else {
+                            "ne"
+                        }
+                    }
+                    None => "none",
+                }
+            ));
+        }
+    }
+    out.join(" ")
+}
+
+/// the header after one operation: data offset, header length, option area,
+/// TcpHeader::options_iterator, to_bytes, and the serialised header followed by
+/// `payload` through every reader
+fn state_line(h: &TcpHeader, payload: &[u8]) -> String {
+    let o = h.options.as_slice();
+    let area = hex(o);
+    let it = iter_line(o, h.options_iterator());
+    let bytes = h.to_bytes();
+    let mut buf: Vec<u8> = bytes.to_vec();
+    buf.extend_from_slice(payload);
+    format!(
+        "do={} hl={} area={} hit[ {} ] bytes={} {}",
+        h.data_offset(),
+        h.header_len(),
+        area,
+        it,
+        hex(&bytes),
+        views_line(&buf, &area, &it, Some(h))
+    )
+}
+
+fn s_write_res(r: &Result<(), TcpOptionWriteError>) -> String {
+    match r {
+        Ok(()) => "ok".to_string(),
+        Err(TcpOptionWriteError::NotEnoughSpace(n)) => format!("err:nes={}", n),
+    }
+}
+
+/// hdr <sp> <dp> <seq> <ack> <flags> <win> <csum> <urg> <payload hex> / op / op ...
+///   op = raw <hex> | els <el> ...
+fn hdr_case(line: &str) -> String {
+    let segs: Vec<&str> = line.split(" / ").collect();
+    let f: Vec<&str> = segs[0].split_whitespace().collect();
+    assert!(f.len() == 10, "hdr fields");
+    let flags: u32 = f[5].parse().unwrap();
+    let mut h = TcpHeader::new(f[1].parse().unwrap(), f[2].parse().unwrap(), f[3].parse().unwrap(), f[6].parse().unwrap());
+    h.acknowledgment_number = f[4].parse().unwrap();
+    h.ns = flags & 1 != 0;
+    h.fin = flags & 2 != 0;
+    h.syn = flags & 4 != 0;
+    h.rst = flags & 8 != 0;
+    h.psh = flags & 16 != 0;
+    h.ack = flags & 32 != 0;
+    h.urg = flags & 64 != 0;
+    h.ece = flags & 128 != 0;
+    h.cwr = flags & 256 != 0;
+    h.checksum = f[7].parse().unwrap();
+    h.urgent_pointer = f[8].parse().unwrap();
+    let payload = unhex(f[9]);
+    let mut out: Vec<String> = Vec::new();
+    for seg in &segs[1..] {
+        let mut it = seg.split_whitespace();
+        let r = match it.next() {
+            Some("raw") => h.set_options_raw(&unhex(it.next().unwrap())),
+            Some("els") => {
+                let els: Vec<TcpOptionElement> = it.map(element_of).collect();
+                h.set_options(&els)
+            }
+            _ => panic!("bad hdr op {}", seg),
+        };
+        out.push(format!("{} {}", s_write_res(&r), state_line(&h, &payload)));
+    }
+    out.join(" ; ")
+}
+
 fn run(line: &str) -> String {
     let mut it = line.split_whitespace();
     let tag = it.next().unwrap();
@@ -210,6 +396,12 @@ fn run(line: &str) -> String {
             let mut h = new_header();
             let hr = h.set_options(&els).map(|_| h);
             options_line(direct, hr)
+        }
+        "hdr" => hdr_case(line),
+        "wire" => {
+            // arbitrary bytes: a TCP header (any data offset) + payload, or less
+            let bs = unhex(it.next().unwrap());
+            views_line(&bs, "", "", None)
         }
         _ => panic!("bad c13 tag {}", tag),
     }
